@@ -116,8 +116,12 @@ def run(chk, replay):
             # either refused (pair busy) or accepted - and then delivered like any other
             sc2 = dict(sc, expect=dict(sc["expect"]))
             t_first = min(t for t in p0.point_time.values())
+            last = {}
+            for pt in pts:                # quick: each source line once, at its LAST execution during the transfer (where
+                if pt[:3] not in last or pt[3] > last[pt[:3]][3]:      # sessions are retired); thorough: every execution
+                    last[pt[:3]] = pt
             for i, pt in enumerate(pts):
-                if p0.point_time[pt] == t_first or (quick and i % 5 != chk.seed % 5):
+                if p0.point_time[pt] == t_first or (quick and last[pt[:3]] != pt):
                     continue              # (not the start-up pass: the transfer has not begun, the other stacks do not exist yet)
                 traces.append(preempt.run(sc2, pt, 1000, during=follow_up(sc))[0])
         chk.validate(spec + ".tla", spec + ".cfg", traces, "%s%s" % (dll[-2:], name), sig=sig, nontrivial=nontrivial)
